@@ -28,6 +28,25 @@ Definition rel_members (versions : list (list member)) : list Z :=
 Section Walk.
   Variable ds : Z -> hist.
 
+  (* the member loop of walk(id, path), with the recursive call abstracted as [rec]:
+       for each relation member mid (all versions, in order):
+         if mid is on the path: return nil          -- from the walk of id, nothing sent
+         err := o.walk(mid, append(path, mid))
+       o.visited[id] = {}; o.out <- id *)
+  Fixpoint walk_loop (rec : Z -> list Z -> list Z -> status * list Z * list Z)
+           (id : Z) (path : list Z) (ms : list Z) (vis : list Z) (out : list Z)
+    : status * list Z * list Z :=
+    match ms with
+    | [] => (SOk, id :: vis, out ++ [id])
+    | mid :: rest =>
+        if memZ mid path then (SOk, vis, out)
+        else
+          match rec mid (path ++ [mid]) vis with
+          | (SOk, vis', out') => walk_loop rec id path rest vis' (out ++ out')
+          | (s, vis', out') => (s, vis', out ++ out')
+          end
+    end.
+
   (* walk(id, path): returns (status, visited afterwards, ids sent on the channel) *)
   Fixpoint walk (fuel : nat) (id : Z) (path : list Z) (vis : list Z) : status * list Z * list Z :=
     match fuel with
@@ -38,18 +57,7 @@ Section Walk.
           match ds id with
           | HNotFound => (SOk, vis, [])                 (* o.ds.NotFound(err): return nil *)
           | HErr => (SErr, vis, [])
-          | HFound versions =>
-              (fix loop (ms : list Z) (vis : list Z) (out : list Z) : status * list Z * list Z :=
-                 match ms with
-                 | [] => (SOk, id :: vis, out ++ [id])  (* o.visited[id] = {}; o.out <- id *)
-                 | mid :: rest =>
-                     if memZ mid path then (SOk, vis, out)   (* on the path: return nil *)
-                     else
-                       match walk f mid (path ++ [mid]) vis with
-                       | (SOk, vis', out') => loop rest vis' (out ++ out')
-                       | (s, vis', out') => (s, vis', out ++ out')
-                       end
-                 end) (rel_members versions) vis []
+          | HFound versions => walk_loop (walk f) id path (rel_members versions) vis []
           end
     end.
 
